@@ -152,6 +152,9 @@ func main() {
 					continue
 				}
 				exact++
+				// the caller owns the number it received (it may go on to use a *big.Int as an accumulator):
+				// every later conversion of the grid must be unaffected by that
+				cql.Scribble(dest)
 			}
 		}
 	}
